@@ -131,6 +131,11 @@ func (in *Interp) intrinsic(fn *ssa.Function, args []Value) (Value, bool) {
 		return nil, false
 	}
 	name := fn.String()
+	if strings.HasPrefix(name, "sync/atomic.") {
+		if r, ok := in.atomicOp(name[len("sync/atomic."):], args); ok {
+			return r, true
+		}
+	}
 	switch name {
 	case "bytes.Equal":
 		a, b := args[0].(SliceVal), args[1].(SliceVal)
@@ -141,17 +146,24 @@ func (in *Interp) intrinsic(fn *ssa.Function, args []Value) (Value, bool) {
 	case "github.com/tdewolff/parse/v2.NewErrorLexer", "github.com/tdewolff/parse/v2.NewError":
 		// stub: formatting of error messages is not the subject; return a non-nil *Error
 		return in.newLoc(fn.Signature.Results().At(0).Type().(*types.Pointer).Elem(), nil), true
-	case "(*sync.RWMutex).RLock", "(*sync.RWMutex).RUnlock":
-		in.lockEvent("R")
-		return nil, true
-	case "(*sync.RWMutex).Lock", "(*sync.RWMutex).Unlock":
-		in.lockEvent("W")
-		return nil, true
 	case "(*sync.Mutex).Lock", "(*sync.Mutex).Unlock", "(*sync.Once).Do":
 		if name == "(*sync.Once).Do" {
 			return nil, false
 		}
 		return nil, true
+	case "(*strings.Builder).copyCheck":
+		return nil, true
+	case "(*strings.Builder).String":
+		if sl, ok := args[0].(*StructLoc); ok {
+			if b, ok := in.load(sl.F[1]).(SliceVal); ok {
+				if b.Arr == nil {
+					return StrVal{}, true
+				}
+				return StrVal{in.sliceTerms(b)}, true
+			}
+		}
+	case "internal/abi.NoEscape":
+		return args[0], true
 	case "math.Float64bits":
 		if f, ok := args[0].(float64); ok {
 			return Const(64, math.Float64bits(f)), true
@@ -395,6 +407,10 @@ func (in *Interp) vIntrinsic(base string, fn *ssa.Function, args []Value) (Value
 		return nil, true
 	case "vFail":
 		in.end("violation", goString(args[0].(StrVal)))
+	case "vNative":
+		return tFalse, true
+	case "vDone":
+		in.end("done", "")
 	case "vKnown":
 		in.end("known", goString(args[0].(StrVal)))
 	case "vReach":
@@ -552,4 +568,33 @@ func (in *Interp) fmtNative(name string, args []Value) Value {
 		return in.errorValue(out)
 	}
 	return strFromGo(out)
+}
+
+// atomicOp models sync/atomic on the single running thread of control.
+func (in *Interp) atomicOp(op string, args []Value) (Value, bool) {
+	switch {
+	case strings.HasPrefix(op, "Load"):
+		return in.load(args[0]), true
+	case strings.HasPrefix(op, "Store"):
+		in.store(args[0], args[1])
+		return nil, true
+	case strings.HasPrefix(op, "Add"):
+		old := in.load(args[0]).(*Term)
+		nv := BV("bvadd", old, args[1].(*Term))
+		in.store(args[0], nv)
+		return nv, true
+	case strings.HasPrefix(op, "Swap"):
+		old := in.load(args[0])
+		in.store(args[0], args[1])
+		return old, true
+	case strings.HasPrefix(op, "CompareAndSwap"):
+		old := in.load(args[0])
+		eq := in.valEq(old, args[1])
+		if in.decide(eq) {
+			in.store(args[0], args[2])
+			return tTrue, true
+		}
+		return tFalse, true
+	}
+	return nil, false
 }
